@@ -53,7 +53,10 @@ impl<'a> Parser<'a> {
         if bits.is_empty() { return false; }
         let upto = self.pos.min(self.tokens.len());
         let k = self.tokens[..upto].iter().filter(|t| !Self::is_skipped(**t)).count();
-        bits[(k * 5 + num * 3 + salt) % bits.len()] == b'1'
+        // the answer also depends on what the parser's own lookahead functions return, so that peek / peek_left
+        // are part of the correspondence (they must never show a skipped token)
+        let la = (self.peek(0) as usize) * 7 + (self.peek(1) as usize) * 11 + (self.peek(2) as usize) * 13 + (self.peek_left(1) as usize) * 17;
+        bits[(k * 5 + num * 3 + salt + la) % bits.len()] == b'1'
     }
     fn v_create(&mut self, kind: usize, node_ref: NodeRef) {
         let nodes = &self.cst.data.nodes;
